@@ -57,7 +57,8 @@ Combos == {Vec(<<Bin(V20), StdCtl(c), StdDat(d)>>) : c \in Comps, d \in Comps}
 Layouts == {Vec(<<Bin(V20), Ctl("gz", cl, Fields(PkgA, ws)), Dat("", dl)>> \o ex) :
               cl \in CtlLayouts, dl \in DataLayouts, ws \in BOOLEAN,
               ex \in {<<>>, <<Extra("_gpgbuilder", <<120>>)>>, <<Extra("_foo", <<>>), Extra("_bar", <<1, 2, 3>>)>>}}
-BinaryTexts == {V20, <<50, 46, 49, 10>>, <<51, 46, 48, 10>>, <<49, 46, 48, 10>>, <<50, 46, 48>>, <<>>, <<50, 46, 48, 10, 120, 10>>}
+V20More == V20 \o <<101, 120, 116, 114, 97, 32, 108, 105, 110, 101, 10>>        \* "2.0\nextra line\n"
+BinaryTexts == {V20, V20More, <<50, 46, 49, 10>>, <<51, 46, 48, 10>>, <<49, 46, 48, 10>>, <<50, 46, 48>>, <<>>, <<50, 46, 48, 10, 120, 10>>}
 Versions == {Vec(<<Bin(t), StdCtl("gz"), StdDat("gz")>>) : t \in BinaryTexts}
 Missing == {Vec(<<StdCtl("gz"), StdDat("gz")>>), Vec(<<Bin(V20), StdDat("gz")>>), Vec(<<Bin(V20), StdCtl("gz")>>),
             Vec(<<Bin(V20)>>), Vec(<<>>), Vec(<<Bin(V20), Ctl("gz", <<Md5, Post>>, Fields(PkgA, FALSE)), StdDat("")>>)}
@@ -78,7 +79,14 @@ Ambiguous == {Vec(<<Bin(V20), StdCtl("gz"), StdDat("gz"), Decoy("")>>), Vec(<<Bi
 Fill(n, b, e) == F("./usr/big" \o ToString(n), "fill", <<b, e>>)
 Large == {Vec(<<Bin(V20), StdCtl("gz"), Dat(c, <<DataFile(1), Fill(1, 0, 21), DataFile(2)>>)>>) : c \in Comps}
          \cup {Vec(<<Bin(V20), Ctl(c, <<Fill(1, 120, 21), CtlF("./control"), Md5>>, Fields(PkgA, FALSE)), StdDat("gz")>>) : c \in Comps}
-C14Vecs == Large \cup Combos \cup Layouts \cup Versions \cup Missing \cup Orders \cup Ambiguous
+\* ./control placed so that its body straddles a 32 KiB boundary of the uncompressed control tar (the window size of
+\* the inflater): "./" (1 block), md5sums header + k data blocks, control header, body at block k+3; k = 57..63.
+\* The control paragraph is longer than one tar block.
+FillK(name, b, k) == F(name, "fillk", <<b, k>>)
+LongDesc == <<115, 104, 111, 114, 116>> \o Concat([i \in 1..12 |-> <<10, 32>> \o [j \in 1..60 |-> 97 + ((i + j) % 26)]])       \* "short" + 12 lines of 60 letters
+FieldsLong(pkg) == [i \in 1..Len(Fields(pkg, FALSE)) |-> IF Fields(pkg, FALSE)[i][1] = bDesc THEN <<bDesc, LongDesc>> ELSE Fields(pkg, FALSE)[i]]
+Straddle == {Vec(<<Bin(V20), Ctl(c, <<Dir, FillK("./md5sums", 97, k), CtlF("./control")>>, FieldsLong(PkgA)), StdDat("gz")>>) : c \in {"gz", "", "xz"}, k \in 57..63}
+C14Vecs == Large \cup Straddle \cup Combos \cup Layouts \cup Versions \cup Missing \cup Orders \cup Ambiguous
 
 \* ---- C16 ------------------------------------------------------------------
 Roles == {"origin", "maint", "archive"}
@@ -96,6 +104,10 @@ SigBasic == {SVec(Signed(c, r, "k1"), ask, ring, NoTamper, <<1, 2, 3>>) :
 \* a byte flipped in each member at seven relative positions
 SigFlips == {SVec(Signed(c, "origin", "k1"), "origin", <<"k1">>, Flip(i, n), <<1, 2, 3>>) :
                 c \in {"gz", ""}, i \in 1..4, n \in 0..6}
+\* debian-binary with further lines (deb(5) allows them): they are part of the signed member
+SignedMore(c, role, key) == <<Bin(V20More), StdCtl(c), StdDat(c), Sig(role, key, <<1, 2, 3>>)>>
+SigMore == {SVec(SignedMore("gz", "origin", "k1"), "origin", ring, NoTamper, <<1, 2, 3>>) : ring \in Keyrings}
+           \cup {SVec(SignedMore("gz", "origin", "k1"), "origin", <<"k1">>, [kind |-> "flip", member |-> 1, num |-> n, den |-> 15, mask |-> 4], <<1, 2, 3>>) : n \in 0..14}
 \* decoy control/data members, before or after, covered or not by the signature
 SigDecoys == {SVec(ms, "origin", <<"k1">>, NoTamper, <<1, 2, 3>>) : ms \in
                 { Signed("gz", "origin", "k1") \o <<Decoy("")>>,
@@ -111,7 +123,7 @@ SigDecoys == {SVec(ms, "origin", <<"k1">>, NoTamper, <<1, 2, 3>>) : ms \in
 \* signatures over the wrong thing: wrong order, partial, foreign package
 SigWrong == {SVec(Base("gz") \o <<Sig("origin", "k1", ov)>>, "origin", <<"k1">>, NoTamper, ov) :
                 ov \in {<<1, 3, 2>>, <<2, 3>>, <<1, 2>>, <<3, 2, 1>>, <<1, 2, 3, 3>>}}
-C16Vecs == SigBasic \cup SigFlips \cup SigDecoys \cup SigWrong
+C16Vecs == SigBasic \cup SigFlips \cup SigMore \cup SigDecoys \cup SigWrong
 
 \* ---- several loaded packages alive in one process -----------------------------------------------------
 \* three signed packages with different names and payloads; handle h holds package PkgOfHandle[h].
